@@ -87,24 +87,38 @@ def hmac256(key, msg):
 class AbsGenerator(Builder):
     no_pickle = True
     """an abstract generator object: an instance of the real Generator class whose group operations are the
-    uninterpreted functions of pyvc.group; its order n and field prime p are symbolic (n, p >= 3, odd) unless given"""
+    uninterpreted functions of pyvc.group; its order n and field modulus p are symbolic primes (n, p >= 3, p = 3 mod 4)"""
 
-    def __init__(self, cls=None, concrete=None):
+    def __init__(self, cls=None, concrete=None, table=False):
         from pycoin.ecdsa.Generator import Generator
         self.cls = cls or Generator
         self.concrete = concrete      # native generator used for sampling / replay (default secp256k1)
+        self.table = table            # also model the fields set up by Generator.__init__ for raw_mul / __mul__
 
     def symbolic(self, ip, name):
         st = ip.st
         n = fresh(name + "_order", 'int')
         p = fresh(name + "_p", 'int')
         st.assume(z3.And(n.e >= 3, p.e >= 3, n.e % 2 == 1, p.e % 4 == 3))
+        # the quantifier of C01/C02: a group of prime order over a prime field (is_prime is uninterpreted: spec/numth.py)
+        isp = z3.Function('is_prime', z3.IntSort(), z3.BoolSort())
+        st.assume(z3.And(isp(n.e), isp(p.e)))
         st.ghost['group_p'] = p
         st.ghost['group_n'] = n
         f = G_.F()
         fields = {'_order': n, '_p': p, '_a': fresh(name + "_a", 'int'), '_b': fresh(name + "_b", 'int'),
                   '_infinity': SV(f['INF'], G_.K_PT), '_pt': SV(f['G'], G_.K_PT)}
         st.assume(f['G'] != f['INF'])
+        if self.table:
+            # arbitrary table, blinding factor and blinding point: what Generator.__init__ establishes about them is a
+            # precondition of the units that read them
+            ps = fresh(name + "_powers", ('seq', G_.K_PT))
+            st.assume(z3.Length(ps.e) < 2 ** 62)
+            fields['_powers'] = st.alloc({'k': 'list', 'seq': ps})
+            bf = fresh(name + "_blinding_factor", 'int')
+            st.assume(bf.e >= 0)
+            fields['_blinding_factor'] = bf
+            fields['_minus_blinding_factor_g'] = fresh(name + "_minus_bf_g", G_.K_PT)
         return st.alloc({'k': 'obj', 'cls': self.cls, 'f': fields})
 
     def sample(self, rng):
